@@ -66,6 +66,45 @@ def closure_ret(p, clo, subst=True):
     return flow.simplify_term(v)
 
 
+def origin_rendering_rule(chk, p, R):
+    """`origin.to_string()` is what goes into the client data: for a web origin the Display impl must write the URL's own
+    ASCII serialisation (scheme, punycode host, non-default port) — Url::as_str (trailing '/' trimmed), the Url's
+    Display/Into<String>, or url.origin().ascii_serialization() — and nothing else of the URL (no unicode form, no slice that
+    drops the port, no hand-assembled host)."""
+    fm = [b for b in p.all_bodies if b.path.endswith("::fmt") and "core::fmt::Display" in b.path and "passkey_client::Origin" in b.path]
+    if not chk.require(R, "R1|Origin::fmt", len(fm) == 1, "passkey_client::Origin", "impl Display for Origin not found"):
+        return
+    b = fm[0]
+    chk.touched(b)
+    T = flow.Terms(p, b)
+    web = lambda x: x == ("field", ("field", ("param", 1), "as Web"), "0") or x == ("payload", ("param", 1)) or (isinstance(x, tuple) and len(x) == 3 and x[0] == "field" and x[2] == "0" and isinstance(x[1], tuple) and x[1][:1] == ("field",) and x[1][2] == "as Web")
+    written = []
+    for bb, t in b.calls():
+        if names.call_is(t, "Argument::new_display", "Argument::new_debug", "Formatter::write_str", "Formatter::pad", "Display::fmt", "core::fmt::rt::Argument::new_display"):
+            for a in t["args"]:
+                x = flow.simplify_term(T.operand(a, bb, "t"))
+                if has(x, web):
+                    written.append((bb, x))
+    # every url-crate function applied to the web URL in this impl
+    used = set()
+    for bb, t in b.calls():
+        cal = core.callee_of(t)
+        if cal.startswith("url::") and any(has(flow.simplify_term(T.operand(a, bb, "t")), web) for a in t["args"]):
+            used.add(names.strip_generics(cal))
+    good = True
+    wit = []
+    for bb, x in written:
+        y = x
+        while isinstance(y, tuple) and len(y) == 4 and y[0] == "call" and (names.is_(y[1], "str::trim_end_matches") or names.is_(y[1], "str::trim_matches") or names.is_(y[1], "String::as_str")) and (len(y[2]) < 2 or y[2][1] in (("const", 47), ("const", "/"))):
+            y = y[2][0]
+        ok = web(y) or (is_call(y, "Url::as_str") and web(y[2][0])) or (is_call(y, "Origin::ascii_serialization") and is_call(y[2][0], "Url::origin") and web(y[2][0][2][0]))
+        good = good and ok
+        wit.append(flow.term_str(x)[:120])
+    allowed = {"url::Url::as_str", "url::Url::origin", "url::origin::Origin::ascii_serialization"}
+    chk.ob(R, "R1|Origin::fmt|web-origin-is-the-url-ascii-serialisation", bool(written) and good and used <= allowed, where(b),
+           "web origin written as %s ; url functions applied to it: %s" % (wit, sorted(used)))
+
+
 def client_data_rules(chk, p, co, nm, ty_variant, target):
     """shared by C02 (register) and C03 (authenticate)"""
     T = flow.Terms(p, co)
@@ -80,6 +119,7 @@ def client_data_rules(chk, p, co, nm, ty_variant, target):
     okc = is_call(ch, "encoding::base64url") and ch[2][0][0] == "field" and ch[2][0][2] == "challenge" and has(ch[2][0], lambda x: x == ("upvar", 2))
     chk.ob(R, "R1|Client::%s|challenge" % nm, okc, where(co, line=co.blocks[bb]["stmts"][i]["line"]), "challenge = %s" % flow.term_str(ch))
     chk.ob(R, "R1|Client::%s|origin" % nm, f["origin"] == ("upvar", 1), where(co, line=co.blocks[bb]["stmts"][i]["line"]), "origin = %s (the caller's origin rendered with Display)" % flow.term_str(f["origin"]))
+    origin_rendering_rule(chk, p, R)
     # hash + returned json
     calls = names.calls_to(co, target)
     if not chk.require(R, "R1|Client::%s|authenticator-call" % nm, len(calls) == 1, where(co), "expected one %s call" % target):
